@@ -58,7 +58,7 @@ def describe(tier):
                    else 'the FULL box keys 0..80 x messages 0..200 x outputs 1..200'),
         'bounds': 'quick: boundary grid; thorough: full box 81 x 201 x 200 per digest',
         'assumptions': ['key and message bytes are DRBG values (one per length); distinctness is decided on a 2000-element DRBG set'],
-        'must_be_nonzero': ['prf-equal-reference', 'hash-equal-reference', 'tls-vector', 'contract-refused', 'distinct-set'],
+        'must_be_nonzero': ['prf-equal-reference', 'hash-equal-reference', 'tls-vector', 'contract-refused', 'distinct-set', 'prf-histories'],
     }
 
 
@@ -74,6 +74,7 @@ def units(tier, seed):
     us.append(('tls', {'kind': 'tls'}))
     us.append(('distinct', {'kind': 'distinct'}))
     us.append(('contracts', {'kind': 'contracts'}))
+    us.append(('histories', {'kind': 'histories'}))
     return us
 
 
@@ -199,6 +200,55 @@ def run_unit(p, tier, seed):
                 seen[y] = m
         r.outcome('distinct-ok')
         r.sample({'distinctness': '2000 distinct (key, message) pairs per digest, key length 16'})
+    elif kind == 'histories':
+        # call histories on ONE PRF / hash object: every sequence of length <= 4 over {valid call under k1, valid call under k2,
+        # call refused for its message length under k1 / k2, call refused for its key length}; every valid call must still equal
+        # the reference for ITS key and message, whatever was called (and refused) before
+        import itertools
+        PRF = get_prf_implementation('HmacPRF')
+        g = det.rng(seed, 'c16-hist')
+        k1, k2 = g.randbytes(16), g.randbytes(16)
+        m1, m2 = g.randbytes(8), g.randbytes(8)
+        EV = ['v1', 'v2', 'rm1', 'rm2', 'rk', 'v1b']
+        for h in ('sha1', 'sha256'):
+            for seq in itertools.chain.from_iterable(itertools.product(EV, repeat=n) for n in (1, 2, 3, 4)):
+                f = PRF(output_length=24, key_length=16, message_length=8, hash_func_name=h)
+                r['evaluations'] += 1
+                r['states'] += 1
+                r['nontrivial'] += 1
+                r.count('prf-histories')
+                for i, ev in enumerate(seq):
+                    r['transitions'] += 1
+                    case = {'digest': h, 'history': list(seq[:i + 1])}
+                    try:
+                        if ev in ('v1', 'v2', 'v1b'):
+                            k, m = (k1, m1) if ev == 'v1' else (k2, m2) if ev == 'v2' else (k1, m2)
+                            got = f(k, m)
+                            if got != p_hash(k, m, 24, h):
+                                r.v(PROPERTY, 'HmacPRF', 'differs-from-rfc5246', 'depends-on-call-history', case, p_hash(k, m, 24, h).hex(), got.hex())
+                        else:
+                            k, m = {'rm1': (k1, m1 + b'x'), 'rm2': (k2, m2[:-1]), 'rk': (k2 + b'x', m2)}[ev]
+                            try:
+                                f(k, m)
+                                r.v(PROPERTY, 'HmacPRF', 'contract', 'length-violation-accepted-in-history', case, 'ValueError', 'accepted')
+                            except ValueError:
+                                pass
+                    except Exception as e:
+                        r.v(PROPERTY, 'HmacPRF', 'raises', 'in-history:%s' % type(e).__name__, case, 'bytes', core.exc_text(e))
+        # the hash wrapper: several objects (digests, output lengths) over the same messages in every order of two
+        H = {(hn, n): get_hash_implementation(hn)(output_length=n) for hn in ('sha1', 'sha256', 'md5') for n in (10, 20, 33, 64)}
+        msgs = [b'', b'abc', g.randbytes(40)]
+        for (a, b) in itertools.permutations(sorted(H), 2):
+            for m in msgs:
+                for (hn, n) in (a, b, a):
+                    r['evaluations'] += 1
+                    r['transitions'] += 1
+                    got = H[(hn, n)](m)
+                    if got != ctr_hash(m, n, hn):
+                        r.v(PROPERTY, 'hash-wrapper', 'differs-from-reference', 'depends-on-call-history', {'hash': hn, 'output_length': n, 'after': [list(a), list(b)], 'history': True},
+                            ctr_hash(m, n, hn).hex(), got.hex())
+        r.outcome('histories-ok')
+        r.sample({'histories': 'all call sequences of length <= 4 over 6 events on one PRF object; all ordered pairs of 12 hash objects'})
     elif kind == 'contracts':
         PRF = get_prf_implementation('HmacPRF')
 
@@ -250,6 +300,8 @@ def replay(case, seed):
         return [v for v in run_unit({'kind': 'prf', 'h': case['digest'], 'keys': [case['key_length']]}, 'thorough', seed)['violations']]
     if 'hash' in case and 'message_length' in case:
         return run_unit({'kind': 'hash', 'h': case['hash']}, 'thorough', seed)['violations']
+    if 'history' in case:
+        return run_unit({'kind': 'histories'}, 'quick', seed)['violations']
     if 'vector' in case:
         return run_unit({'kind': 'tls'}, 'quick', seed)['violations']
     if 'pair1' in case or 'm1' in case:
